@@ -53,6 +53,8 @@ type Fabric struct {
 	KeyFn func(r *HTTPReq) string
 	// PanicClass is set if a served handler panicked (net/http would have recovered it)
 	Panics []string
+	// LocalErrors counts round trips refused before reaching the wire (ContentLength / body mismatch)
+	LocalErrors int
 }
 
 func NewFabric() *Fabric {
@@ -69,6 +71,14 @@ func (f *Fabric) RoundTrip(req *http.Request) (*http.Response, error) {
 	if req.Body != nil {
 		body, _ = io.ReadAll(req.Body)
 		req.Body.Close()
+	}
+	if req.ContentLength > 0 && int64(len(body)) != req.ContentLength {
+		// what net/http's Transport does with a request whose body was already consumed by an
+		// earlier attempt: it never reaches the wire
+		f.mu.Lock()
+		f.LocalErrors++
+		f.mu.Unlock()
+		return nil, fmt.Errorf("http: ContentLength=%d with Body length %d", req.ContentLength, len(body))
 	}
 	h := sha256.Sum256(body)
 	r := &HTTPReq{Method: req.Method, Host: req.URL.Host, Path: req.URL.Path, Header: req.Header.Clone(), Body: body,
